@@ -63,6 +63,34 @@ def numbers(r):
     return workloads.program("numbers", lines)
 
 
+VALUES = ["nil", "true", "false", "0", "-0", "1", "-1", "2.5", "1e308 * 10", "0/0", "'str'", "''", "'é'", "[1, 2, 3]", "[]",
+          "{}", "{1: 'a'}", "(1, 2)", "|| 1", "|a, b| a < b", "|a, b| a - b", "[3, 1, 2]", "'a,b'", "chan(1)", "Error('x')",
+          "9007199254740993", "-2.5", "[nil, 1]", "(nil,)", "{'k': nil}"]
+
+CALLS = [
+    "%s.sort(%s)", "%s.push(%s)", "%s.insert(%s, %s)", "%s.remove(%s)", "%s[%s]", "%s.has(%s)", "%s.index(%s)", "%s.slice(%s, %s)",
+    "%s.get(%s)", "%s.remove(%s)", "%s.set(%s, %s)", "%s.iter().reduce(%s, %s)", "%s.iter().map(%s).list()",
+    "%s.iter().filter(%s).list()", "%s.iter().take(%s).list()", "%s.iter().skip(%s).list()", "%s.iter().zip(%s.iter()).list()",
+    "%s.iter().all(%s)", "%s.iter().any(%s)", "%s.split(%s).list()", "%s + %s", "%s - %s", "%s * %s", "%s / %s", "%s < %s",
+    "%s == %s", "-%s", "!%s", "%s.str()", "%s.len()", "%s.times().take(3).list()", "%s.until(%s).take(3).list()", "Number.parse(%s)",
+    "%s.floor()", "%s.up()", "%s.trim()", "%s()", "%s(%s)", "%s.close()", "%s.rev()", "%s.iter().first()", "%s.iter().last()",
+    "[%s, %s].sort(%s)", "{%s: %s}.len()", "'${%s}'", "%s.iter().into(List.collect)", "%s.cls().name()", "%s && %s", "%s || %s",
+    "%s.message", "%s.pop()", "%s.clear()", "%s.cmp(%s)", "%s.round()", "%s.ceil()", "%s.down()", "%s.has(%s) == %s.has(%s)",
+]
+
+
+def misuse(r):
+    """Built-ins applied to operands of every kind: results, error classes and messages must not depend on the value
+    representation (no addresses are printed: closures, channels and errors only appear as receivers or arguments)."""
+    lines = []
+    for _ in range(r.randint(6, 20)):
+        call = r.choice(CALLS)
+        expr = call % tuple("(%s)" % r.choice(VALUES) for _ in range(call.count("%s")))
+        lines.append("try { let v = %s; print(v.cls().name(), v.cls() == Closure || v.cls() == Channel || v.cls() == Error ? '-' : v); } "
+                     "catch e: Error { print('err', e.cls().name(), e.message); }" % expr)
+    return workloads.program("misuse", lines)
+
+
 class C14(Check):
     prop = "C14"
     level = "exploration"
@@ -85,6 +113,7 @@ class C14(Check):
             plan += [("corpus", position) for position in range(len(programs)) for _ in range(9)]
         plan += [("numbers", i) for i in range(1500 if tier == "quick" else 100000)]
         plan += [("generated", i) for i in range(1500 if tier == "quick" else 60000)]
+        plan += [("misuse", i) for i in range(1000 if tier == "quick" else 60000)]
         return plan
 
     def runs(self, tier):
@@ -103,6 +132,8 @@ class C14(Check):
             program = self.programs[entry[1]]
         elif entry[0] == "numbers":
             program = numbers(rng)
+        elif entry[0] == "misuse":
+            program = misuse(rng)
         else:
             program = workloads.generate(rng)
         gc = schedules.never() if rng.random() < 0.3 else schedules.random_schedule(rng, self.startup, self.startup + 400, program.get("heavy", False))
@@ -123,6 +154,7 @@ class C14(Check):
         problems = []
         if fail_enum and fail_boxed:
             counters["invalid_workload"] = 1
+            counters["invalid:" + fail_enum[:90]] = 1
         elif fail_boxed:
             problems.append(("host failure in the NaN-boxed build only", fail_boxed))
         elif fail_enum:
